@@ -107,7 +107,9 @@ def exact_case(sc):
     """single layer, or loss-free materials everywhere: the equality is exact (1e-6 K)"""
     lossless = sc.get("ice_permittivity") is not None and sc["ice_permittivity"][1] == 0 and \
         (sc.get("substrate") is None or sc["substrate"]["eps"][1] == 0 or sc["substrate"]["kind"] == "reflector")
-    return len(sc["thickness"]) == 1 or lossless
+    same = lambda xs: all(x == xs[0] for x in xs)
+    identical = same(sc["density"]) and same(sc["temperature"]) and all(same(v) for v in sc.get("micro", {}).values() if isinstance(v, list))
+    return len(sc["thickness"]) == 1 or lossless or identical
 
 
 def check_iso(sc):
@@ -162,7 +164,19 @@ def oracle(ctx, hints, effort):
         sc = iso_scene(rng, em, ms, nlayer=1 if i % 2 == 0 else None, substrate=sub)
         if i % 2 == 0:
             sc["thickness"] = [round(float(rng.uniform(0.02, 0.5)), 3)]
+        elif i % 4 == 1 and len(sc["thickness"]) >= 2:
+            # identical adjacent media (any thicknesses, optically thin to deep): the equality is exact whatever the loss
+            for k in ("density",):
+                sc[k] = [sc[k][0]] * len(sc["thickness"])
+            sc["micro"] = {k: ([v[0]] * len(sc["thickness"]) if isinstance(v, list) else v) for k, v in sc.get("micro", {}).items()}
+            sc["thickness"] = [round(float(np.exp(rng.uniform(np.log(0.05), np.log(20.0)))), 3) for _ in sc["thickness"]]
         todo.append(sc)
+    # optically deep stacks of identical lossy layers (cumulated optical depth of a few units at the internal boundaries): exact
+    for f, ths, cl in ((89e9, [1.0, 1.0, 1.0], 1.5e-4), (36.5e9, [10.7, 10.7], 1.2e-4)):
+        T = round(float(rng.uniform(240, 270)), 2)
+        todo.append(dict(thickness=ths, density=[320.0] * len(ths), temperature=[T] * len(ths), microstructure="exponential", frequency=f,
+                         micro=dict(corr_length=[cl] * len(ths)), substrate=dict(kind="soil_wegmuller", T=T, eps=[8.0, 1.5], params=dict(roughness_rms=0.01)),
+                         atmosphere=dict(tb_down=T, tb_up=0.0, trans=1.0), emmodel="iba", nmax=16, assembly=0))
     for sc in todo:
         evals += 1
         try:
